@@ -207,6 +207,8 @@ type vcWorld struct {
 	peers    map[string]*vcPeer
 	c        *Core
 	ag       *vcAgent
+	ag2      *vcAgent // the client that registers dtn://late/in (action Register)
+	lateReg  bool
 	bcla     *vcBarrierCla
 	base     time.Time
 	shortL   time.Duration
@@ -296,6 +298,9 @@ func (w *vcWorld) open() error {
 		recv: make(chan agent.Message), send: make(chan agent.Message), w: w}
 	go w.ag.loop()
 	c.RegisterApplicationAgent(w.ag)
+	if w.lateReg {
+		w.registerLate()
+	}
 	w.bcla = &vcBarrierCla{ch: make(chan cla.ConvergenceStatus)}
 	c.RegisterConvergable(w.bcla)
 	for _, p := range w.peers {
@@ -307,6 +312,14 @@ func (w *vcWorld) open() error {
 	return nil
 }
 
+// registerLate: a client registers dtn://late/in while the node runs (its deliveries are recorded like the first agent's).
+func (w *vcWorld) registerLate() {
+	w.lateReg = true
+	w.ag2 = &vcAgent{eids: []bpv7.EndpointID{bpv7.MustNewEndpointID("dtn://late/in")}, recv: make(chan agent.Message), send: make(chan agent.Message), w: w}
+	go w.ag2.loop()
+	w.c.RegisterApplicationAgent(w.ag2)
+}
+
 func (w *vcWorld) close() {
 	if w.c != nil {
 		am := w.c.agentManager
@@ -316,13 +329,16 @@ func (w *vcWorld) close() {
 		// keep every closed Core (and its store's tables) reachable
 		defer func() { _ = am.Close() }()
 	}
-	if w.ag != nil {
-		// ends the mux child goroutine for this agent
-		select {
-		case w.ag.send <- agent.ShutdownMessage{}:
-		case <-time.After(time.Second):
+	for _, ag := range []*vcAgent{w.ag, w.ag2} {
+		if ag != nil {
+			// ends the mux child goroutine for this agent
+			select {
+			case ag.send <- agent.ShutdownMessage{}:
+			case <-time.After(time.Second):
+			}
 		}
 	}
+	w.ag2 = nil
 }
 
 // storeDump lists what the node's store holds (diagnosis of an overdue barrier: was the sentinel stored instead of delivered?).
@@ -436,6 +452,8 @@ func (w *vcWorld) build(name string) bpv7.Bundle {
 		dst = "dtn://node/app"
 	case "noagent":
 		dst = "dtn://node/none"
+	case "late":
+		dst = "dtn://late/in"
 	case "bcast":
 		dst = "dtn://routing/dtlsr/broadcast/"
 	default:
